@@ -392,7 +392,7 @@ fn position_sources() -> Vec<Vec<u8>> {
 
 pub fn run(ctx: &Ctx) -> i32 {
     let mut total = Report::new();
-    let cfg = util::ForkCfg { threads: ctx.threads, mem_bytes: 6 << 30, case_timeout_s: 60, died_signature: "C16/abort".into() };
+    let cfg = util::ForkCfg { threads: ctx.threads, mem_bytes: 6 << 30, case_timeout_s: 60, died_signature: "C16/abort".into(), resource_is_violation: false };
     // (A)
     let lens = span_layouts(ctx.quick());
     let mut orders: Vec<Vec<usize>> = Vec::new();
